@@ -306,8 +306,47 @@ def _order_contract(n):
 
 ORDER = [_order_contract(n) for n in range(0, 4)]
 
+def _replay_on_name(inp):
+    """the fragment jedi sees in front of the cursor vs the identifier characters that are really there"""
+    from pyvc.replay import run_real
+    import re
+    import parso
+    from jedi.api.helpers import get_on_completion_name
+    code = inp['code']
+    lines = parso.split_lines(code, keepends=True)
+    pos = (len(lines), len(lines[-1]))
+    module = parso.parse(code)
+    out = run_real(lambda: get_on_completion_name(module, lines, pos))
+    typed = re.search(r'(?!\d)\w+$|$', lines[-1]).group(0)
+    return {'TYPED': typed}, out
+
+
+_on_name = Contract(
+    id='C04.get_on_completion_name', prop='C04',
+    clause='the fragment that completions must extend is exactly what is typed in front of the cursor: the part of '
+           'the name OR keyword leaf under the cursor up to the cursor column (a complete keyword such as `not` or '
+           '`for` is a fragment like any other); empty on operators, numbers, whitespace',
+    file='jedi/api/helpers.py', qualname='get_on_completion_name',
+    params={'module_node': Obj('PNode'), 'lines': Seq(STR), 'position': POS}, families=['PNode', 'Match04'], ret=STR,
+    requires=['position[0] >= 1 and position[0] <= len(lines)'],
+    ensures=[
+        'implies(module_node.get_leaf_for_position(position) is not None and '
+        '(module_node.get_leaf_for_position(position).type == "name" or '
+        'module_node.get_leaf_for_position(position).type == "keyword"), '
+        'result == module_node.get_leaf_for_position(position).value[:position[1] - '
+        'module_node.get_leaf_for_position(position).start_pos[1]])',
+        'implies(module_node.get_leaf_for_position(position) is not None and '
+        'module_node.get_leaf_for_position(position).type not in ("name", "keyword", "string", "error_leaf"), '
+        'result == "")',
+    ],
+    witness={}, replay=_replay_on_name, concrete_only=True,
+    witness_library=[{'code': 'x = not'}, {'code': 'y = 1 if 2 else'}, {'code': 'for'}, {'code': 'abc.de'},
+                     {'code': 'x = 1 +'}],
+    concrete_ensures=['result == TYPED'],
+)
+
 CONTRACTS = [_start_match, _fuzzy_match, _match, _complete, _complete_prop, _nws, _prefix_len, _param_eq,
-             _filter_names] + ORDER
+             _filter_names, _on_name] + ORDER
 
 def _standin(repo, seed, tier):
     from pyvc.standin import run_standin
@@ -327,6 +366,11 @@ TRUSTED = ['str.lower() modelled as an uninterpreted idempotent function (not le
 
 def register(reg):
     from pyvc.values import MNS, MFn
+    reg.add_family(Family('Match04', methods={'group': FnSpec('Match.group', params=[('n', INT)], ret=STR, pure=True,
+                                                              assumed=True)}))
+    reg.names['re'] = MNS('re', {'search': MFn('spec', 're.search', spec=FnSpec(
+        're.search', params=[('pattern', STR), ('s', STR)], ret=Obj('Match04'), pure=True, assumed=True,
+        note='the pattern used here always matches (alternative `$`)'))})
     reg.names['classes'] = MNS('classes', {'Completion': MFn('spec', 'classes.Completion', spec=_Completion_ctor)})
     reg.names['helpers'] = MNS('helpers', {'match': MFn('spec', 'match', spec=callee_of(_match))})
     reg.names['_remove_duplicates'] = FnSpec(
